@@ -78,6 +78,8 @@ type gen struct {
 	outFz     *Var
 	outFzSlot func() Expr
 	outAt     *Var
+	noNeg     bool // literals must be non-negative (guard for tag private-init.unary)
+	noMustUse bool // no calls of @must_use functions (guard for tag must_use.call-arg)
 }
 
 func (g *gen) class(s string) { g.classes[s] = true }
@@ -192,6 +194,13 @@ func (g *gen) litOf(k Kind) *Lit {
 		} else if r == 4 {
 			v = int64(rapid.Int32().Draw(g.t, "lir"))
 		}
+		if g.noNeg && v < 0 {
+			if v == math.MinInt32 {
+				v = 0
+			} else {
+				v = -v
+			}
+		}
 		return &Lit{T: TI32, Bits: uint32(int32(v))}
 	case U32:
 		v := intBoundary[g.intn(len(intBoundary), "lu")]
@@ -205,7 +214,11 @@ func (g *gen) litOf(k Kind) *Lit {
 		}
 		return &Lit{T: TU32, Bits: uint32(v)}
 	case F32:
-		return &Lit{T: TF32, Bits: math.Float32bits(g.smallFloat())}
+		f := g.smallFloat()
+		if g.noNeg && f < 0 {
+			f = -f
+		}
+		return &Lit{T: TF32, Bits: math.Float32bits(f)}
 	}
 	panic("litOf")
 }
@@ -396,7 +409,38 @@ func (g *gen) pathsTo(roots []Expr, want func(*Type) bool) []pathCand {
 	for _, r := range roots {
 		walkPaths(r, r.Type(), want, nil, 4, &out)
 	}
-	return out
+	// Known finding (tag const.index.composite): a constant-index / member
+	// access into a `const` composite whose element is itself composite is
+	// mistyped by the lowerer; keep const-rooted paths whose first step
+	// already yields a scalar.
+	decided, off := false, false
+	keep := out[:0]
+	for _, c := range out {
+		if len(c.steps) >= 1 {
+			if v, ok := c.root.(*VarRef); ok && v.V.Kind == VConst && !firstStepScalar(v.V.T, c.steps[0]) {
+				if !decided {
+					decided, off = true, g.f.off("const.index.composite")
+				}
+				if off {
+					continue
+				}
+			}
+		}
+		keep = append(keep, c)
+	}
+	return keep
+}
+
+func firstStepScalar(t *Type, s pathStep) bool {
+	switch s.kind {
+	case 0:
+		return t.St.Members[s.idx].T.K == TScalar
+	case 1:
+		return t.Elem.K == TScalar
+	case 2:
+		return true
+	}
+	return false
 }
 
 func noAtomic(t *Type) bool { return !t.HasAtomic() && !t.HasRuntimeArray() }
